@@ -1,92 +1,31 @@
-//! End-to-end smoke run of the honest pipeline (not a check; used while developing).
+//! Development aid: prints the honest trace of a C10 scenario world (not a check).
 
-use std::sync::Arc;
-use std::time::Instant;
-
-use ckb_types::prelude::*;
-
-use crate::service::{BlockFilterRpc, Order, ScriptType as RpcScriptType, SearchKey};
-use crate::storage::{ScriptStatus, ScriptType};
-use crate::verif::client::{ClientCfg, Template};
-use crate::verif::driver::{Sim, World};
-use crate::verif::txlib::{build_tx, OutSpec, Scripts};
-use crate::verif::world::{compact_of, load_consensus, Chain, EpochPlan};
+use crate::verif::props::c10;
+use crate::verif::scen::{self, Env};
+use crate::storage::ScriptType;
+use crate::verif::driver::World;
 
 pub(crate) fn run() -> i32 {
-    let t0 = Instant::now();
-    let consensus = Arc::new(load_consensus("mini_dummy.toml"));
-    println!("consensus loaded in {:?}", t0.elapsed());
-    let t0 = Instant::now();
-    let template = Arc::new(Template::new(&consensus));
-    println!("template in {:?}", t0.elapsed());
-    let scripts = Scripts::new(&consensus);
-    let plan = EpochPlan {
-        epochs: vec![(10, compact_of(16)), (10, compact_of(24)), (10, compact_of(40))],
-    };
-    let mut chain = Chain::new(Arc::clone(&consensus), plan);
-    let t0 = Instant::now();
-    for n in 1..=30u64 {
-        if n == 5 || n == 15 || n == 27 {
-            chain.miner_lock = scripts.a.clone();
-        } else {
-            chain.miner_lock = Default::default();
-        }
-        chain.push(vec![]);
-    }
-    println!("30 blocks in {:?}", t0.elapsed());
-    let mut world = World::new(vec![chain], 4);
-    world.add_peer(1, 0, 30);
-    world.filter_batch = 7;
-    let t0 = Instant::now();
-    let mut sim = Sim::new(ClientCfg::default(), Arc::clone(&consensus), template, world);
-    println!("client in {:?}", t0.elapsed());
+    let env = Env::dummy();
+    let w = c10::worlds(&env);
+    let mut world = World::new(vec![w.main.clone(), w.fork.clone()], 4);
+    world.add_peer(1, 0, 12);
+    world.filter_batch = 5;
+    let mut sim = scen::new_sim(&env, scen::default_cfg(), world);
     sim.record_trace = true;
-    sim.c().storage.update_filter_scripts(
-        vec![ScriptStatus {
-            script: scripts.a.clone(),
-            script_type: ScriptType::Lock,
-            block_number: 0,
-        }],
-        Default::default(),
+    scen::register(
+        &sim,
+        &[
+            (env.scripts.a.clone(), ScriptType::Lock, 0),
+            (env.scripts.t.clone(), ScriptType::Type, 0),
+        ],
     );
-    let t0 = Instant::now();
     sim.connect(1);
     let r = sim.converge(60);
-    println!("converge {:?} in {:?}", r, t0.elapsed());
     for l in &sim.trace {
         println!("  {}", l);
     }
-    println!("bans: {:?}", sim.bans());
-    let c = sim.c();
-    println!(
-        "tip={} min_filtered={} script_number={} max_cp={}",
-        c.tip_number(),
-        c.storage.get_min_filtered_block_number(),
-        c.storage.get_filter_scripts()[0].block_number,
-        c.storage.get_max_check_point_index()
-    );
-    let key = SearchKey {
-        script: scripts.a.clone().into(),
-        script_type: RpcScriptType::Lock,
-        filter: None,
-        with_data: None,
-        group_by_transaction: None,
-    };
-    let cells = c
-        .rpc_filter()
-        .get_cells(key, Order::Asc, 100u32.into(), None)
-        .unwrap();
-    println!(
-        "cells for A: {}",
-        serde_json::to_string(
-            &cells
-                .objects
-                .iter()
-                .map(|c| serde_json::to_value(c).unwrap()["block_number"].clone())
-                .collect::<Vec<_>>()
-        )
-        .unwrap()
-    );
-    let _ = build_tx(&[], &[], &[OutSpec::lock(&scripts.a, 1)], 0);
+    println!("converge {:?} bans {:?}", r, sim.bans());
+    println!("{}", sim.c().light_print());
     0
 }
